@@ -35,6 +35,32 @@ fn fixed_element(e: &AElem) -> fixed::Element {
     }
 }
 
+/// like `fixed_element`, but a text may be given as two adjacent `Content::Text` entries
+/// (xotify creates with consolidation on: they are one text node in the tree)
+fn fixed_element_split(e: &AElem, src: &mut Src, splits: &mut usize) -> fixed::Element {
+    let mut children = vec![];
+    for c in &e.children {
+        match c {
+            ANode::Element(e) => children.push(fixed::Content::Element(fixed_element_split(e, src, splits))),
+            ANode::Text(t) => {
+                let chars: Vec<char> = t.chars().collect();
+                if chars.len() >= 2 && src.bool() {
+                    let at = 1 + src.choice(chars.len() - 1);
+                    children.push(fixed::Content::Text(chars[..at].iter().collect()));
+                    children.push(fixed::Content::Text(chars[at..].iter().collect()));
+                    *splits += 1;
+                } else {
+                    children.push(fixed::Content::Text(t.clone()));
+                }
+            }
+            ANode::Comment(t) => children.push(fixed::Content::Comment(t.clone())),
+            ANode::PI(t, d) => children.push(fixed::Content::ProcessingInstruction(fixed::ProcessingInstruction { target: t.clone(), content: d.clone() })),
+            _ => unreachable!(),
+        }
+    }
+    fixed::Element { children, ..fixed_element(&AElem { children: vec![], ..e.clone() }) }
+}
+
 fn fixed_misc(n: &ANode) -> fixed::DocumentContent {
     match n {
         ANode::Comment(t) => fixed::DocumentContent::Comment(t.clone()),
@@ -268,6 +294,29 @@ impl Property for C20 {
                         }
                     }
                     Err(_) => ctx.label("rich_rendering_rejected"),
+                }
+            }
+            // route 2b (drawn last): the fixed structure with texts given as adjacent Content::Text entries
+            {
+                let root_el = match &doc {
+                    ANode::Document(ch) => ch.iter().find_map(|c| c.as_elem()),
+                    ANode::Element(e) => Some(e),
+                    _ => None,
+                };
+                if let Some(e) = root_el {
+                    let mut splits = 0;
+                    let fe = fixed_element_split(e, src, &mut splits);
+                    if splits > 0 {
+                        ctx.label("fixed_with_adjacent_text_entries");
+                        let n = guarded(|| fe.xotify(&mut xot)).map_err(|p| format!("fixed::Element::xotify panicked: {}", p))?;
+                        let r = bridge::read(&xot, n)?;
+                        same_tree(&r, &ANode::Element(e.clone()), Cmp::exact())
+                            .map_err(|er| format!("fixed::Element with texts given as adjacent Content::Text entries differs from the abstract document: {}", er))?;
+                        let other = if is_doc { xot.document_element(by_parse).map_err(|e| e.to_string())? } else { by_parse };
+                        if !xot.deep_equal(n, other) {
+                            return Err("the tree from a fixed::Element with adjacent text entries is not deep_equal to the parsed one".into());
+                        }
+                    }
                 }
             }
             let sd = xot.to_string(by_pieces).map_err(|e| format!("to_string(stepwise route with text pieces): {}", e))?;
